@@ -163,22 +163,23 @@ def region(lay, off):
     return 'trailers'
 
 
-def trigger(side, lay, cuts):
-    """Which known weak spot of the framing code the delivery (layout + cut
-    offsets already delivered) touches - the first one in stream order; 'none'
-    if none.  Used as the classifying key of a witness."""
+def triggers(side, lay, cuts):
+    """Which weak spots of the framing code the delivery (layout + cut offsets
+    already delivered) touches, as a dict of booleans - the classifying keys
+    of a witness (known findings are matched on them):
+      empty_header_block  the blank line follows the first line at once and a body follows
+      first_line_crlf_cut a read ended between the CR and the LF that end the first line
+      bodiless_status     (client) 204 / 304 response
+      until_close         the body is delimited by the closing of the connection
+      last_chunk_cut      a read ended behind the size line of the last chunk, before the end"""
     cuts = set(cuts)
-    if lay['line'] + 1 in cuts:
-        return 'cut_inside_first_line_crlf'
-    if not lay['hdrs'] and total(lay) > hdr_end(lay):
-        return 'empty_header_block_before_body'
-    if side == 'client' and lay.get('status') in (204, 304):
-        return 'bodiless_status'
-    if lay['body'] == 'close':
-        return 'read_until_close'
-    if lay['body'] == 'chunked' and any(last_size_end(lay) <= c < total(lay) for c in cuts):
-        return 'cut_after_last_chunk_size_line'
-    return 'none'
+    return {
+        'empty_header_block': (not lay['hdrs']) and total(lay) > hdr_end(lay),
+        'first_line_crlf_cut': lay['line'] + 1 in cuts,
+        'bodiless_status': side == 'client' and lay.get('status') in (204, 304),
+        'until_close': lay['body'] == 'close',
+        'last_chunk_cut': lay['body'] == 'chunked' and any(last_size_end(lay) <= c < total(lay) for c in cuts),
+    }
 
 
 # -- the grammar of spec/web/HttpFraming.tla ---------------------------------
